@@ -295,6 +295,10 @@ def fam_decode(rng, tier):
         cuts = () if mode == 0 else "every" if (mode == 1 and len(stream) < 80) else header_boundaries(frames)
         api = rng.choice([["recv_frame", False]] * 3 + [["recv_data_frame", True]])
         f.add(stream, [api], cuts=cuts, max_calls=k + 3, via_connect=(i % 9 == 0))
+        if i % 4 == 1 and len(stream) > 2:
+            # a non-blocking transport on which the stream arrives in two pieces, the caller polling in between
+            p = rng.randrange(1, len(stream))
+            f.add(stream, [api], cuts=[p], timeouts=[p], max_calls=k + 4, nonblocking=True)
         if i % 10 == 3:
             # a text message that is refused as ill-formed, the caller reads on: the frames after it are decoded as they are
             bad = rng.choice([b"\xff", b"\xc3", b"ab\xed\xa0\x80", b"\xf8\x88\x80\x80\x80"])
@@ -328,6 +332,8 @@ def fam_decode(rng, tier):
                     hl = len(fr) - n
                     for p in range(1, hl + 1):
                         f.add(fr + follow, [rng.choice(ALL_APIS)], cuts=tuple(range(1, hl + 2)), timeouts=[p], max_calls=5)
+                        # the same on a non-blocking transport: "nothing there yet" (would-block) instead of a timeout
+                        f.add(fr + follow, [rng.choice(ALL_APIS)], cuts=tuple(range(1, hl + 2)), timeouts=[p], max_calls=5, nonblocking=True)
     return f.out
 
 
@@ -691,11 +697,42 @@ def fam_garbage(rng, tier):
     return f.out
 
 
+def fam_api_mix(rng, tier):
+    """State carried from one receive call into the next one of a different kind: a call that ends with a timeout
+    (or a would-block) before / inside the frame, or that returns an earlier message, is followed by a call through
+    another API - the second call's verdict on its own message (well-formed or not) must not depend on the first."""
+    import itertools
+    f = Fam("mix")
+    from .c06 import BAD, SEEDS
+    good = [s.encode() for s in SEEDS if s][:3]
+    bad = BAD if tier == "thorough" else BAD[:6] + rng.sample(BAD[6:], 4)
+    apis = ALL_APIS
+    for txt in bad + good:
+        fr = wire.sframe(T, txt)
+        for a1, a2 in itertools.permutations(apis, 2):
+            if tier == "quick" and rng.random() < 0.5:
+                continue
+            # the first call is interrupted before the frame, inside its header or inside its payload
+            for pos in (0, 1, 2 + len(txt) // 2):
+                if pos >= len(fr):
+                    continue
+                for nb in (False, True):
+                    if nb and tier == "quick" and rng.random() < 0.6:
+                        continue
+                    f.add(fr + wire.sframe(B, b"\xff"), [a1, a2, a2], timeouts=[pos], cuts=[pos] if pos else [], nonblocking=nb, max_calls=4)
+            # the first call returns a message of its own, the second one judges the next message
+            f.add(wire.sframe(T, b"ok") + fr + wire.sframe(B, b"\xff"), [a1, a2, a2], max_calls=4)
+            f.add(wire.sframe(B, b"\xff\xfe") + fr + wire.sframe(T, b"z"), [a1, a2, a1], max_calls=4)
+            # ... or ends with a refused message of its own
+            f.add(wire.sframe(T, b"\xc3") + fr + wire.sframe(B, b"\xff"), [a1, a2, a2], max_calls=4)
+    return f.out
+
+
 def fam_common(rng, tier):
     """A small mixed pool that every receive-side check runs, so that a clause of property X broken
     by a change is seen by ./check X even if X's focused families do not exercise that path."""
     out = []
-    for fam in (fam_decode, fam_fragments, fam_legality, fam_utf8, fam_pings, fam_segmentation):
+    for fam in (fam_decode, fam_fragments, fam_legality, fam_utf8, fam_pings, fam_segmentation, fam_api_mix):
         scs = fam(random.Random(rng.random()), "quick")
         rng.shuffle(scs)
         out += scs[:120]
@@ -705,11 +742,11 @@ def fam_common(rng, tier):
 
 
 FAMILIES = {
-    "C02": [("decode", fam_decode)],
+    "C02": [("decode", fam_decode), ("api_mix", fam_api_mix)],
     "C03": [("segmentation", fam_segmentation)],
     "C04": [("fragments", fam_fragments)],
     "C05": [("legality", fam_legality)],
-    "C06": [("utf8_messages", fam_utf8)],
+    "C06": [("utf8_messages", fam_utf8), ("api_mix", fam_api_mix)],
     "C07": [("pings", fam_pings)],
     "C17": [("garbage_frames", fam_garbage)],
 }
@@ -731,6 +768,8 @@ def run_for(ctx, pid, with_mc=True):
         recv_model.replay(ctx, pid)
     if pid in ("C02", "C03"):
         big_frames(ctx, pid)
+    if pid in ("C03", "C07"):
+        real_socket_streams(ctx, pid)
     if pid == "C03":
         real_socket_handshake(ctx)
         from . import app_common
@@ -754,14 +793,18 @@ def big_frames(ctx, pid):
     for size in sizes:
         for masked in (True, False):
             for tmo in (None, "inside"):
-                for api in ("recv_frame", "recv_data", "recv"):
-                    if ctx.tier == "quick" and (n + size) % 3:
+                for api in ("recv_frame", "recv_data", "recv", "recv_text"):
+                    if ctx.tier == "quick" and (n + size) % 3 and not (api == "recv_text" and size <= base + 1):
                         n += 1
                         continue
                     n += 1
-                    payload = rng.randbytes(size)
+                    # (recv_text: the big frame is a text message - letters and a few multi-byte characters - read with recv())
+                    text = api == "recv_text"
+                    payload = rng.randbytes(size) if not text else (("%c" % (97 + size % 26)) * (size - 5) + "\u00e9\u20ac").encode()
+                    bigop = 1 if text else 2
+                    api = "recv" if text else api
                     key = rng.randbytes(4) if masked else None
-                    big = wire.sframe(2, payload, mask=key)
+                    big = wire.sframe(bigop, payload, mask=key)
                     after = [wire.sframe(1, b"after"), wire.sframe(2, b"\x00\x01")]
                     stream = big + b"".join(after)
                     pos = 14 + rng.randrange(size - 100) if tmo else None
@@ -780,6 +823,9 @@ def big_frames(ctx, pid):
                                 got.append((int(op), hashlib.sha256(bytes(d)).hexdigest(), len(d)))
                             else:
                                 v = ws.recv()
+                                if type(v) not in (str, bytes):     # recv() hands out str for text and bytes for binary, nothing else
+                                    got.append(("badtype", type(v).__name__, ""))
+                                    break
                                 b = v.encode() if isinstance(v, str) else bytes(v)
                                 got.append((1 if isinstance(v, str) else 2, hashlib.sha256(b).hexdigest(), len(b)))
                         except websocket.WebSocketTimeoutException:
@@ -789,7 +835,7 @@ def big_frames(ctx, pid):
                         except Exception as e:      # noqa
                             got.append(("raise", type(e).__name__, str(e)[:60]))
                             break
-                    want = [(2, hashlib.sha256(payload).hexdigest(), size), (1, hashlib.sha256(b"after").hexdigest(), 5),
+                    want = [(bigop, hashlib.sha256(payload).hexdigest(), size), (1, hashlib.sha256(b"after").hexdigest(), 5),
                             (2, hashlib.sha256(b"\x00\x01").hexdigest(), 2)]
                     ctx.case(("big", size, masked, bool(tmo), api))
                     ctx.traces += 1
@@ -798,7 +844,7 @@ def big_frames(ctx, pid):
                         first = next((i for i, (a, b) in enumerate(zip(got + [None] * 3, want)) if a != b), 0)
                         ctx.deviation(None, "frame of %d bytes (%s%s) via %s followed by two frames: result %d differs from the independent decoder: got %s"
                                       % (size, "masked" if masked else "unmasked", ", one timeout inside the payload" if tmo else "", api, first,
-                                         [g[:1] + g[2:] if g[0] != "raise" else g for g in got][:4]),
+                                         [g[:1] + g[2:] if g[0] not in ("raise", "badtype") else g for g in got][:4]),
                                       {"clause": clause, "size": size, "masked": masked, "timeout_at": pos, "api": api})
     ctx.notes["big_frames"] = n
 
@@ -862,6 +908,96 @@ def real_socket_handshake(ctx):
         if got != [(1, b"first"), (2, b"\x01\x02")]:
             ctx.deviation(None, "real socket pair, response head + two frames written as two segments cut at byte %d (of %d head bytes): got %s"
                           % (cut, len(probe), got), {"clause": "C03.valid_handshake_response_refused", "cut": cut, "got": repr(got)})
+
+
+def real_socket_streams(ctx, pid):
+    """Frame streams over a real socket.socket (a socket pair, no fake transport): the same stream written by the peer in one
+    segment and frame by frame with pauses.  What the calls return and what the client writes back (pongs, the close reply)
+    is the same for both and equals what the frames say - whatever a real socket lets an implementation look at (peeking,
+    the amount already queued, flags of recv())."""
+    import socket as pysocket
+    import threading
+    import time as pytime
+    import websocket
+    streams = [
+        [(PI, b"probe-a", 1), (PI, b"probe-b", 1), (T, b"t", 1)],
+        [(PI, b"", 1), (PI, b"", 1), (PI, b"x", 1), (CL, b"\x03\xe8", 1)],
+        [(T, b"fr", 0), (PI, b"1", 1), (PI, b"2", 1), (C, b"ag", 1), (PI, b"3", 1)],
+        [(PO, b"u", 1), (PI, b"k", 1), (B, b"\x00", 1), (PI, b"k", 1), (PI, b"k", 1)],
+    ]
+    for si, frames in enumerate(streams):
+        want_ret, acc, aop = [], b"", None       # (the message-level call hands fragments over reassembled)
+        for op, pl, fin in frames:
+            if op in (T, B, C):
+                aop, acc = (op if op != C else aop), acc + pl
+                if fin:
+                    want_ret.append((aop, acc, 1))
+                    acc, aop = b"", None
+            else:
+                want_ret.append((op, pl, fin))
+        want_wr = [(PO, pl) for op, pl, fin in frames if op == PI] + [(CL, b"\x03\xe8") for op, pl, fin in frames if op == CL]
+        for mode in ("one_segment", "per_frame"):
+            a, b = pysocket.socketpair()
+            wrote = bytearray()
+
+            def server(sock=b, frames=frames, mode=mode, wrote=wrote):
+                try:
+                    sock.settimeout(0.25)
+                    if mode == "one_segment":
+                        sock.sendall(b"".join(wire.sframe(op, pl, fin) for op, pl, fin in frames))
+                    else:
+                        for op, pl, fin in frames:
+                            sock.sendall(wire.sframe(op, pl, fin))
+                            pytime.sleep(0.03)
+                    while True:
+                        try:
+                            d = sock.recv(4096)
+                        except OSError:
+                            break
+                        if not d:
+                            break
+                        wrote += d
+                finally:
+                    sock.close()
+            th = threading.Thread(target=server, daemon=True)
+            th.start()
+            got = []
+            ws = websocket.WebSocket()
+            ws.sock = a
+            ws.connected = True
+            a.settimeout(3)
+            if mode == "one_segment":
+                pytime.sleep(0.05)       # everything is queued at the client before the first call
+            try:
+                for _ in want_ret:
+                    op, fr = ws.recv_data_frame(True)
+                    got.append((int(op), bytes(fr.data), int(fr.fin)))
+            except Exception as e:      # noqa
+                got.append(("raise", type(e).__name__, str(e)[:70]))
+            pytime.sleep(0.02)
+            try:
+                a.shutdown(pysocket.SHUT_WR)
+            except OSError:
+                pass
+            th.join(3)
+            try:
+                a.close()
+            except OSError:
+                pass
+            try:
+                wr = [(f["op"], f["payload"]) for f in wire.decode_client_frames(bytes(wrote))]
+            except ValueError as e:
+                wr = [("junk", repr(e))]
+            ctx.case(("real_socket_stream", si, mode))
+            ctx.traces += 1
+            if got != want_ret or wr != want_wr:
+                clause = "C07.ping_not_answered" if wr != want_wr else "C02.decoded_result_differs"
+                if pid == "C03":
+                    clause = "C03.result_depends_on_segmentation"
+                ctx.deviation(None, "real socket pair, frames %s written %s: calls gave %s (expected %s), client wrote %s (expected %s) - clause %s"
+                              % ([(op, pl.hex(), fin) for op, pl, fin in frames], mode.replace("_", " "), got, want_ret, wr, want_wr, clause),
+                              {"clause": clause, "stream": si, "mode": mode, "got": repr(got), "wrote": repr(wr)})
+    ctx.notes["real_socket_streams"] = 2 * len(streams)
 
 
 def negative_controls(ctx, pid):
